@@ -234,10 +234,14 @@ def run_walk_input(unit):
     from . import c07
     P = gx.P
     S = unit['S']
-    cfg = {'harness': 'layerwalk-from-input-lines', 'S': S}
+    style = unit.get('style', 'enumerated')      # 'Gradient 1, ..' / 'Thickness 1, ..' lines, or the list style 'Gradients, g1, g2, ..' / 'Thicknesses, t1, ..'
+    cfg = {'harness': 'layerwalk-from-input-lines', 'S': S, 'style': style}
     log = harness.UnitLog(cfg)
     lines = ['Surface Temperature', 'Maximum Temperature', 'Reservoir Depth'] + [f'Gradient {i + 1}' for i in range(S)] + [f'Thickness {i + 1}' for i in range(S - 1)]
     rng = {n: INPUT_RANGES[n if n in INPUT_RANGES else n.split(' ')[0]] for n in lines}
+    if style == 'list':
+        for i in range(S):
+            rng[f'Gradient {i + 1}'] = (0, 500)        # 0 (an isothermal layer) is a legitimate list entry; (0, 2) stays outside (ambiguous unit)
     fresh, _, _ = gx.make_source('geophires_x.TDPReservoir', 'TDPReservoir')
     g0, th0 = list(fresh.gradient.value), list(fresh.layerthickness.value)
 
@@ -247,12 +251,21 @@ def run_walk_input(unit):
         r.gradient.value, r.layerthickness.value = list(g0), list(th0)      # as a freshly constructed reservoir holds them
         entries = {'Number of Segments': P.ParameterEntry(Name='Number of Segments', sValue=str(S), raw_entry=f'Number of Segments, {S}')}
         for n in lines:
+            if style == 'list' and n.split(' ')[0] in ('Gradient', 'Thickness'):
+                continue
             if symbolic:
                 tok = c07.NumStr('SYMV')
                 tok.proxy = vals[n]
             else:
                 tok = repr(float(vals[n]))
             entries[n] = P.ParameterEntry(Name=n, sValue=tok, raw_entry=f'{n}, {tok}')
+        if style == 'list':
+            # the list style is parsed from the raw line: its numeric tokens are provenance markers (symbolic) or plain numbers (replay)
+            for lname, items in (('Gradients', [vals[f'Gradient {i + 1}'] for i in range(S)]), ('Thicknesses', [vals[f'Thickness {i + 1}'] for i in range(S - 1)])):
+                if not items:
+                    continue
+                toks = [str(x) if symbolic else repr(float(x)) for x in items]
+                entries[lname] = P.ParameterEntry(Name=lname, sValue=toks[0], raw_entry=f'{lname}, ' + ', '.join(toks))
         m.InputParameters = entries
         import contextlib
         import io
@@ -270,13 +283,19 @@ def run_walk_input(unit):
         """what the input lines state, in the walk's units (m, degC/m)."""
         v = {'Tsurf': vals['Surface Temperature'], 'Tmax': vals['Maximum Temperature'], 'depth': vals['Reservoir Depth'] * 1000.0}
         for i in range(S):
-            v[f'gradient[{i}]'] = vals[f'Gradient {i + 1}'] / 1000.0
+            g = vals[f'Gradient {i + 1}']
+            # a stated gradient of 0 is carried as 1e-6 degC/m (the code's documented guard against dividing by zero)
+            v[f'gradient[{i}]'] = core.ite(g <= 0, 1e-6, g / 1000.0) if style == 'list' else g / 1000.0
         for i in range(S - 1):
             v[f'thickness[{i}]'] = vals[f'Thickness {i + 1}'] * 1000.0
         return v
 
     def fn():
         vals = {n: sym(n, *rng[n]) for n in lines}
+        if style == 'list':
+            for i in range(S):
+                g = vals[f'Gradient {i + 1}'].t
+                core.ctx().add_assume(z3.Or(g == 0, g >= 2))
         m = drive(vals, True)
         return walk_obligations(S, stated(vals), m, tol=1e-9)
 
@@ -561,7 +580,7 @@ def _ge(a, b):
 def units(tier, seed):
     us = [{'harness': 'layerwalk', 'S': S} for S in (1, 2, 3, 4)]
     us += [{'harness': 'layerwalk', 'S': 2, 'after': 4}] + ([{'harness': 'layerwalk', 'S': 3, 'after': 4}, {'harness': 'layerwalk', 'S': 1, 'after': 3}] if tier == 'thorough' else [])
-    us += [{'harness': 'layerwalk-input', 'S': S} for S in (1, 2)]      # (S = 3 exceeds 8000 paths: every input line forks on '== default' and '== current value')
+    us += [{'harness': 'layerwalk-input', 'S': S} for S in (1, 2)] + [{'harness': 'layerwalk-input', 'S': 2, 'style': 'list'}]      # (S = 3 exceeds 8000 paths: every input line forks on '== default' and '== current value')
     for (L, T) in NS[tier]:
         for model in (1, 2, 3, 4):
             us.append({'harness': 'history', 'model': model, 'L': L, 'T': T})
